@@ -295,4 +295,14 @@ def c19(run, ck):
                 assumptions=["byte-level encodings are not modelled: the specification models the variant numbering of the derived (de)serializers and judges recorded round trips"])
 
 
-PIPELINES = {"C19": c19, "C11": c11, "C01": c01, "C13": c13, "C02": c02, "C18": c18, "C12": c12, "C10": c10, "C09": c09, "C03": c03, "C04": c04, "C05": c05, "C06": c06, "C07": c07, "C08": c08}
+def c17(run, ck):
+    out = os.path.join(run.work, "params.ndjson")
+    run.drive("params", 6000 if run.thorough else 500, out)
+    verdicts, recs = run.validate(out, "Trace_Params", cfg="Trace_Params.cfg", parts=8, label="params")
+    simple_violations(run, ck, verdicts, recs, "params", describe=lambda rec, v: rec.get("position", ""))
+    return dict(rule="a variable placed in each of 34 syntactic positions and in every pair of nested positions (thorough: all pairs), plus generated programs: FreeVars(tree) within the reported list within the identifiers of the source; "
+                     "filter_from_bindings against three binding sets; every unreported identifier rebound to a different value must not change the outcome",
+                assumptions=["built-in type names are never variables and need not be reported"])
+
+
+PIPELINES = {"C17": c17, "C19": c19, "C11": c11, "C01": c01, "C13": c13, "C02": c02, "C18": c18, "C12": c12, "C10": c10, "C09": c09, "C03": c03, "C04": c04, "C05": c05, "C06": c06, "C07": c07, "C08": c08}
